@@ -154,6 +154,8 @@ pub enum Plan {
     Instr(u64),
     AtInput(usize),
     AfterReply(usize),
+    /// right after the j-th listed line (a LIST statement of the program is being served)
+    AfterList(usize),
 }
 
 /// Type `first` (usually RUN) and then CONT until the program has really ended.
@@ -175,6 +177,7 @@ pub fn run_to_completion(
     let mut instr_before: u64 = 0;
     let mut inputs_before: usize = 0;
     let mut replies_before: usize = 0;
+    let mut lists_before: usize = 0;
     let mut line = first.to_string();
     let mut plan_left = plan.clone();
     loop {
@@ -203,6 +206,11 @@ pub fn run_to_completion(
                     io.intrs.push(When::AfterReply(*j - replies_before));
                 }
             }
+            Plan::AfterList(j) => {
+                if *j >= lists_before {
+                    io.intrs.push(When::AfterList(*j - lists_before));
+                }
+            }
         }
         let col_before_line = w.true_col;
         let _ = col_before_line;
@@ -225,6 +233,7 @@ pub fn run_to_completion(
         instr_before += o.instr;
         inputs_before += evs.iter().filter(|e| matches!(e, Ev::Input(..))).count();
         replies_before += replies_used(&evs);
+        lists_before += evs.iter().filter(|e| matches!(e, Ev::List(..))).count();
         let mut t = tokens(&evs);
         if w.fatal.is_some() {
             merge_tokens(&mut c.toks, t);
